@@ -213,14 +213,10 @@ func (bsn *blockScanner) scan(ctx context.Context, blockCh chan *blockScanResult
 	if len(bsn.parts) < 1 {
 		return
 	}
-	var parts []*part
-	if bsn.asc {
-		parts = bsn.parts[0]
-		bsn.parts = bsn.parts[1:]
-	} else {
-		parts = bsn.parts[len(bsn.parts)-1]
-		bsn.parts = bsn.parts[:len(bsn.parts)-1]
-	}
+	// getDisjointParts already orders the groups for the scan direction
+	// (latest group first when descending), so always consume from the front.
+	parts := bsn.parts[0]
+	bsn.parts = bsn.parts[1:]
 	bma := generateBlockMetadataArray()
 	defer releaseBlockMetadataArray(bma)
 	ti := generateTstIter()
